@@ -237,6 +237,19 @@ pub fn job_set() -> Vec<Job> {
         j.files[0].1 = main;
         v.push(j);
     }
+    // jobs that end in the middle of a deeply nested expression: whatever bookkeeping the parser keeps must not
+    // survive into the next assembly on the same thread
+    {
+        let mut j = job("nesting-limit", "nesting-limit", "failure", 0, 5, 0, 0, 0, &[]);
+        j.files[0].1 += &format!("deep = {}1\n", "!".repeat(80));
+        v.push(j);
+        let mut j = job("dangling-operator", "dangling-operator", "failure", 0, 5, 0, 0, 0, &[]);
+        j.files[0].1 += "#d8 -\n";
+        v.push(j);
+        let mut j = job("nesting-just-below-the-limit", "nesting-below-limit", "success", 0, 5, 0, 0, 0, &[]);
+        j.files[0].1 += &format!("deepok = {}1{}\n", "(".repeat(40), ")".repeat(40));
+        v.push(j);
+    }
     // the two format-string jobs: same files as `base`, equally-ranked unknown format parameters
     let mut f1 = job("format-unknown-param-2", "format-unknown-param", "failure", 0, 5, 0, 0, 0, &[]);
     f1.argv = ["main.asm", "-f", "binary,foo:1,bar:2", "-o", "out.txt"].iter().map(|s| s.to_string()).collect();
